@@ -271,14 +271,12 @@ def h5ds_copy(src_loc, src_name, dst_loc, dst_name=None,
         # HDF5 may segfault when copying chunked, compressed datasets of
         # variable-length strings. They are rewritten with fixed length
         # (empty datasets, which may serve as markers, are copied as-is).
-        if ((ensure_compression and not is_properly_compressed(src))
-                or (src.dtype.kind == "O" and src.shape[0] != 0)):
+        if (src.shape[0] != 0
+                and ((ensure_compression and not is_properly_compressed(src))
+                     or src.dtype.kind == "O")):
             # Chunk size larger than dataset size is not allowed
             # in h5py's `make_new_dset`.
-            if src.shape[0] == 0:
-                # Ignore empty datasets (This sometimes happens with logs).
-                return
-            elif src.chunks and src.chunks[0] > src.shape[0]:
+            if src.chunks and src.chunks[0] > src.shape[0]:
                 # The chunks in the input file are larger than the dataset
                 # shape. So we set the chunks to the shape. Here, we only
                 # check for the first axis (event count for feature data),
